@@ -62,6 +62,9 @@ impl fmt::Display for DisplayParsedString<'_> {
                 '/' => f.write_str("\\/")?,
                 ')' => f.write_str("\\)")?,
                 ',' => f.write_str("\\,")?,
+                // escape_default would write these as \' and \", which parse_escaped_char does
+                // not accept. Neither needs an escape.
+                '\'' | '"' => write!(f, "{c}")?,
                 // All the other escapes should be covered by this.
                 c => write!(f, "{}", c.escape_default())?,
             }
